@@ -115,7 +115,7 @@ def parseOp (args : List String) : Option Op :=
     some (.setSess (lit b) ((kvs rest).map fun kv => (SKey.ofName kv.1, (fromHex kv.2).getD [])))
   | "seed" :: rest =>
     let m := kvs rest
-    some (.seedUser { pid := lookB m "pid", email := lookB m "pid", pw := lookB m "pw", confirmed := lookF m "conf",
+    some (.seedUser { pid := lookB m "pid", email := (match look m "email" with | some _ => lookB m "email" | none => lookB m "pid"), pw := lookB m "pw", confirmed := lookF m "conf",
                       attempts := lookI m "att",
                       lastAttempt := match look m "last" with | some "z" => zeroTime | some v => v.toInt?.getD 0 | none => zeroTime,
                       locked := match look m "locked" with | some "z" => zeroTime | some v => v.toInt?.getD 0 | none => zeroTime,
